@@ -167,8 +167,14 @@ class Facts:
             # may cancel atoms whose own congruence is unknown
             base = self._cong_plain(t, depth)
             best = base
-            for (L, A) in congs:
-                for k in (1, -1):
+            for (L, A0) in congs:
+                ks = {1, -1}
+                for a_, cr in L.t:
+                    ct = t.coeff(a_)
+                    if ct and cr and ct % cr == 0:
+                        ks.add(ct // cr)
+                for k in ks:
+                    A = min(A0 * _pow2_part(k), self.MAXMOD)   # k*L ≡ 0 (mod 2^v(k) * A0)
                     c2 = self._cong_plain(t - L.scale(k), depth + 1)
                     m2 = c2[0] if c2[0] and c2[0] <= A else (A if c2[0] == 0 or c2[0] > A else c2[0])
                     cand = (m2, c2[1] % m2) if m2 else c2
@@ -176,6 +182,27 @@ class Facts:
                         best = cand
             return best
         return self._cong_plain(t, depth)
+
+    def _cong_from_equality(self, L):
+        """linear congruences implied by an assumed equality L == 0:
+           (x & (2^k - 1)) == 0           =>  x ≡ 0 (mod 2^k)
+           R + c·a == 0 with 2^k | c      =>  R ≡ 0 (mod 2^k)"""
+        a = L.single_atom()
+        if a is not None and L.c == 0 and a[0] == "and":
+            for x, w in ((a[1], a[2]), (a[2], a[1])):
+                if isinstance(w, Lin) and w.is_const() and w.c > 0 and (w.c & (w.c + 1)) == 0 and isinstance(x, Lin) and x.t:
+                    self.add_cong(x, min(w.c + 1, self.MAXMOD))
+                    return
+        best = None
+        for at, k in L.t:
+            p2 = _pow2_part(k)
+            if p2 >= 2 and (best is None or p2 > best[1]):
+                best = (at, p2, k)
+        if best is not None and len(L.t) > 1:
+            at, p2, k = best
+            R = L - atom(at).scale(k)
+            if R.t:
+                self.add_cong(R, min(p2, self.MAXMOD))
 
     def add_cong(self, L, A):
         """assume L ≡ 0 (mod A)"""
@@ -205,6 +232,12 @@ class Facts:
             c = self.cong_atom(a)
             if c is not None:
                 return c
+        for (L, A) in (self.__dict__.get("congs") or ()):
+            # an assumed congruence about this atom alone:  ±a + c ≡ 0 (mod A)
+            if len(L.t) == 1:
+                (la, lk), = tuple(L.t)
+                if la == a and lk in (1, -1):
+                    return (A, (-L.c * lk) % A)
         # an assumed equality  ±a + rest == 0  transfers the congruence of -rest to a
         if depth < 4:
             best = None
@@ -279,6 +312,8 @@ class Facts:
             if g > 1 and L.c % g == 0:
                 L = Lin(L.c // g, [(t, k // g) for t, k in L.t])
             (self.ne if neg else self.eq).append(L)
+            if not neg:
+                self._cong_from_equality(L)
         elif pred in ("ult", "slt"):
             if neg:  # !(a < b)  ->  a - b >= 0
                 self.ge.append(a - b)
@@ -365,6 +400,10 @@ class Facts:
                 xm, xr = self.cong(x)
                 if xr == 0 and xm > 1:
                     rows.append(const((1 << k) - min(xm, 1 << k)) - r)
+                if xm >= (1 << k):
+                    # the residue of x modulo 2^k is known exactly
+                    rows.append(r - (xr % (1 << k)))
+                    rows.append(const(xr % (1 << k)) - r)
         for a in list(allat):  # (second pass: includes the x & m atoms introduced by the lshr rows above)
             if a[0] == "and":
                 for u, w in ((a[1], a[2]), (a[2], a[1])):
@@ -860,6 +899,10 @@ def _simplify(t, facts, depth):
             x = simplify(x, facts, depth + 1)
             if mk > 0:
                 m_, r_ = facts.cong(x)
+                if m_ == 0:
+                    return const(r_ & mk)
+                if m_ >= (1 << mk.bit_length()):
+                    return const(r_ & mk)   # every bit the mask selects is determined by the residue
                 j = 0
                 if r_ == 0 or m_ == 0:
                     mm = m_ if m_ else ((r_ & -r_) if r_ else 1 << 12)
